@@ -349,7 +349,53 @@ def r6(ctx):
     ctx.floor(R, 1)
 
 
+def r7(ctx):
+    R = "C19-R7"
+    ctx.rule(R, "a rule stops applying the moment its guard is dropped - whatever the rule owns: rule objects are user values (closures) and may own "
+                "other RuleGuards, whose Drop re-enters the registry. Removing a rule and tearing the Net down must therefore destroy rule objects "
+                "only after the registry's RefCell borrow is released: inside the closures handed to CURRENT.with(..) by uninstall_rule and "
+                "EnterGuard::drop, and in the Net methods they call, nothing of a type that contains rule objects (Box<dyn Rule>, the rule "
+                "map, Net itself) is dropped or overwritten")
+    CUR = "turmoil_net::CURRENT"
+    roots = ["turmoil_net::uninstall_rule", "<turmoil_net::EnterGuard as std::ops::Drop>::drop"]
+    n = 0
+    for rid in roots:
+        rb = ctx.body(R, rid)
+        if not rb:
+            continue
+        inside = []
+        for bb, t in rb.calls(re.compile(r"LocalKey<T>::with$|LocalKey::with$")):
+            for cid in closure_args(rb, t):
+                cb = ctx.w.bodies.get(cid)
+                if cb is None:
+                    continue
+                inside.append(cb)
+                for bb2, t2 in cb.calls(re.compile(r"^turmoil_net::Net::")):
+                    if t2["f"] in ctx.w.bodies:
+                        inside.append(ctx.w.bodies[t2["f"]])
+        bad = []
+        for fb in inside:
+            live = fb.reachable(0)
+            for bb in sorted(live):
+                t = fb.term(bb)
+                if t["k"] != "drop" or not isinstance(t.get("ty"), int):
+                    continue
+                ts = fb.tys[t["ty"]].get("s", "")
+                if ts.startswith(("std::cell::RefMut", "std::cell::Ref<")):
+                    continue
+                if "dyn rule::Rule" in ts or re.search(r"\bNet\b", ts):
+                    bad.append((fb.id, ts, t.get("s") or fb.span))
+        n += 1
+        ctx.inst(R, f"rules-dropped-outside-borrow:{rid}", bool(inside) and not bad, bad[0][2] if bad else rb.span,
+                 "rule objects leave the registry before they are destroyed" if inside and not bad else
+                 (f"`{bad[0][0]}` destroys a `{bad[0][1]}` while the registry's RefCell is mutably borrowed: a rule that owns the RuleGuard of another rule "
+                  "re-enters the registry from its destructor and panics (`RefCell already borrowed`) - dropping the owner's guard aborts instead of removing both rules, "
+                  "and a Net whose rules own guards cannot be torn down" if bad else f"`{rid}` no longer goes through CURRENT.with(..): re-derive"))
+    ctx.floor(R, 2)
+
+
 def run(ctx):
+    r7(ctx)
     r6(ctx)
     r1(ctx)
     r2(ctx)
